@@ -1,6 +1,6 @@
 (* Executable wrapper of the sparse-matrix model for the correspondence check (stream `sparse`). *)
 From Coq Require Import Arith List Bool.
-From OFV Require Import ListAux Sparse.
+From OFV Require Import ListAux Sparse SparseOpt SparseChk.
 Import ListNotations.
 
 Inductive sop :=
@@ -8,6 +8,8 @@ Inductive sop :=
 | OCopy (dr dc : nat) (junk : list (nat * nat))            (* copy into a (nr+dr) x (nc+dc) matrix holding junk, continue on the copy *)
 | OCopyRows (rows : list nat) (junk : list (nat * nat))     (* same-size destination, row i := row rows[i] *)
 | OCopyCols (cols : list nat) (junk : list (nat * nat))
+| OCopyRowsOpt (rows : list nat) (junk : list (nat * nat))  (* of_mod2sparse_copyrows_opt (.., NULL): destination NOT cleared, junk stays *)
+| OCopyColsOpt (cols : list nat) (junk : list (nat * nat))
 | OCopyFilled (irows icols : list nat) (r2 c2 : nat)        (* renumbered copy into a fresh r2 x c2 matrix *)
 | ODenseRoundTrip                                           (* sparse -> dense -> sparse (fresh matrix with junk) *)
 | OEmptyRow (i : nat) | OEmptyCol (j : nat) | OWeightRow (i : nat).
@@ -22,8 +24,10 @@ Definition sparse_step (m : smat) (o : sop) : smat * nat :=
   | ODelete i j => (s_delete m i j, if mem j (nth i (rws m) []) then 1 else 0)
   | OClear => (s_clear m, 0)
   | OCopy dr dc junk => (s_copy m (insert_all (s_allocate (nr m + dr) (nc m + dc)) junk), 0)
-  | OCopyRows rows junk => (s_copyrows m (insert_all (s_allocate (nr m) (nc m)) junk) rows, 0)
-  | OCopyCols cols junk => (s_copycols m (insert_all (s_allocate (nr m) (nc m)) junk) cols, 0)
+  | OCopyRows rows junk => (s_copyrows_chk m (insert_all (s_allocate (nr m) (nc m)) junk) rows, 0)
+  | OCopyCols cols junk => (s_copycols_chk m (insert_all (s_allocate (nr m) (nc m)) junk) cols, 0)
+  | OCopyRowsOpt rows junk => (s_copyrows_opt m (insert_all (s_allocate (nr m) (nc m)) junk) rows, 0)
+  | OCopyColsOpt cols junk => (s_copycols_opt m (insert_all (s_allocate (nr m) (nc m)) junk) cols, 0)
   | OCopyFilled ir ic r2 c2 => (s_copy_filled m (s_allocate r2 c2) ir ic, 0)
   | ODenseRoundTrip => (s_from_dense (s_to_dense m (nr m) (nc m)) (insert_all (s_allocate (nr m) (nc m)) [(0, 0)]), 0)
   | OEmptyRow i => (m, if s_empty_row m i then 1 else 0)
